@@ -309,6 +309,10 @@ variable (co so : Nat) (st : State Val) (cache : Option Nat) (view : Option (Str
 @[simp] theorem bln_cache : (bln co so st cache view).cache = cache := rfl
 @[simp] theorem bln_view : (bln co so st cache view).view = view := rfl
 theorem pkd_norm : (pkd co so st cache view).norm = bln co so st cache view := rfl
+theorem bln_lit (x : Option Nat) (st' : State Val) :
+    (⟨co, so, .plain .bool, .bool false, st', x, view⟩ : MapObj) = bln co so st' x view := rfl
+theorem pkd_lit (x : Option Nat) (st' : State Val) :
+    (⟨co, so, .packed, .bool false, st', x, view⟩ : MapObj) = pkd co so st' x view := rfl
 theorem bln_c : (bln co so st cache view).c = (pkd co so st cache view).c := rfl
 theorem bln_vc : (bln co so st cache view).vc = (pkd co so st cache view).vc := rfl
 theorem bln_npix : (bln co so st cache view).npix = (pkd co so st cache view).npix := rfl
@@ -605,15 +609,20 @@ macro "sim_walk0" : tactic => `(tactic| repeat' (first
   | simp only []))
 
 open Lean Elab Tactic Meta in
-/-- find a call `apiUpdate (pkd …) …` / `apiUpdateRanges (pkd …) …` whose arguments are free in the
-    goal and generalise it to `X` (with `hX : call = X`) -/
+/-- goal `Sim (match … call … with …) rhs` where `call` is `apiUpdate (pkd …) …` or
+    `apiUpdateRanges (pkd …) …` inside the discriminant of the left-hand match: generalise it to `X`
+    (with `hX : call = X`) -/
 elab "gen_pkd_call" : tactic => withMainContext do
   let g ← getMainGoal
   let tgt ← instantiateMVars (← g.getType)
-  let some e := tgt.find? (fun e =>
-      (e.isAppOfArity ``apiUpdate 6 || e.isAppOfArity ``apiUpdateRanges 5) && !e.hasLooseBVars &&
-        (e.getAppArgs[0]!).isAppOf ``pkd)
-    | throwError "no call on a bit-packed object"
+  unless tgt.isAppOfArity ``Sim 2 do throwError "not a Sim goal"
+  let lhs := tgt.appFn!.appArg!
+  let some app ← Lean.Meta.matchMatcherApp? lhs | throwError "the left-hand side is not a match"
+  let isCall (e : Expr) : Bool :=
+    (e.isAppOfArity ``apiUpdate 6 || e.isAppOfArity ``apiUpdateRanges 5) && !e.hasLooseBVars &&
+      (e.getAppArgs[0]!).isAppOf ``pkd
+  let some e := app.discrs.findSome? (fun d => d.find? isCall)
+    | throwError "no call on a bit-packed object in the discriminant"
   let (_, g') ← g.generalize #[{ expr := e, xName? := `X, hName? := `hX }]
   replaceMainGoal [g']
 
@@ -627,6 +636,7 @@ macro "sim_walk" : tactic => `(tactic| repeat' (first
   | exact sim_bind w _ _ rfl
   | exact sim_put w _ _ (MapObj.norm_norm _)
   | exact sim_bind w _ _ (MapObj.norm_norm _)
+  | exact sim_bind w _ _ (by simp only [MapObj.norm, Kind.norm_norm])
   | exact sim_bind_metas w _ _ _ rfl
   | exact sim_metas w _ _
   | exact sim_mocs w _ _
@@ -634,33 +644,10 @@ macro "sim_walk" : tactic => `(tactic| repeat' (first
   | exact sim_files w _ _ rfl
   | (gen_pkd_call; cases X <;> simp only [map_ok_E, map_error_E])
   | dsimp +instances only [pkd_covord, pkd_spord, pkd_kind, pkd_sent, pkd_st, pkd_cache, pkd_view, bln_covord, bln_spord,
-      bln_kind, bln_sent, bln_st, bln_cache, bln_view, bln_c, bln_vc, bln_npix, bln_abs, bln_maxbits]
-  | simp +instances only [Kind.isBool.eq_1, Kind.isBool.eq_2, Kind.isIntegerMap.eq_2, Kind.isIntegerMap.eq_3]
+      bln_kind, bln_sent, bln_st, bln_cache, bln_view, bln_c, bln_vc, bln_npix, bln_abs, bln_maxbits,
+      bln_lit, pkd_lit]
+  | simp +instances only [Kind.isBool.eq_1, Kind.isBool.eq_2, Kind.isIntegerMap.eq_2, Kind.isIntegerMap.eq_3,
+      apiUpdate_pkd_norm, apiUpdateRanges_pkd_norm]
   | split))
-
-theorem sim_opUpd {w : World} (hw : w.Good) (a : Args)
-    (hex : (srcBool w a && a.get? "vdtype" == some "b1") = false) :
-    Sim (HS.opUpd w.norm a) (HS.opUpd w a) := by
-  unfold HS.opUpd
-  refine sim_withMap hw fun n m hn hget hok hsrc => ?_
-  rcases m.packed_cases hok.2.1 with hp | ⟨co, so, st, cache, view, rfl⟩
-  · simp +instances only [MapObj.norm_of_ne hp]
-    sim_walk0
-  · have hvd : a.get? "vdtype" ≠ some "b1" := by
-      rw [hsrc] at hex
-      have h2 : Kind.packed.isBool = true → ¬ a.get? "vdtype" = some "b1" := by simpa using hex
-      exact h2 rfl
-    dsimp +instances only [pkd_norm]
-    simp only [apiUpdate_pkd_norm]
-    cases hv : a.get? "vdtype" with
-    | none => sim_walk
-    | some t =>
-      have ht : (t != dtCode .bool) = true := by
-        rw [hv] at hvd
-        simp only [bne_iff_ne, ne_eq]
-        intro h; apply hvd; rw [h]; rfl
-      simp only [bln_kind, pkd_kind, ht]
-      sim_walk
-
 
 end HS
